@@ -5,5 +5,6 @@ package checks
 var All = map[string]func(tier string) int{
 	"C01": C01,
 	"C02": C02,
+	"C05": C05,
 	"C06": C06,
 }
